@@ -249,7 +249,7 @@ pub fn creds_strategy() -> BoxedStrategy<Creds> {
         (small_text(), small_text(), small_text())
             .prop_map(|(user, realm, password)| Creds::Long { user, realm, password }),
         // keys longer than one hash block
-        (65usize..200, 0u8..4, any::<u64>()).prop_map(|(l, f, s)| Creds::Short {
+        (prop_oneof![2 => 65usize..200, 1 => 62usize..=66, 1 => 126usize..=130], 0u8..4, any::<u64>()).prop_map(|(l, f, s)| Creds::Short {
             password: make_text(l, f, s)
         }),
     ]
